@@ -31,3 +31,25 @@ Definition shift_spec (x : bits) (b : bool) (dir : bool) (s : nat) : bits :=
   let n := length x in
   if dir then firstn n (repeat b s ++ x)              (* up: towards the msb *)
   else skipn s x ++ repeat b (Nat.min s n).           (* down *)
+
+(* corecircuits.shift_left_logical / shift_right_logical / shift_right_arithmetic with a Python
+   int amount k >= 0 (after `bits_to_shift = as_wires(bits_to_shift)`):
+     concat(bits[:-k], Const(0, k))     bits[k:].zero_extended(len(bits))     bits[k:].sign_extended(len(bits))
+   None = it raises (empty slice, or Const of bitwidth 0) *)
+Definition sll_const (x : bits) (k : Z) : option bits :=
+  match wslice x None (Some (- k)) with
+  | Some lo => if 0 <? k then Some (concat2 lo (repeat false (Z.to_nat k))) else None
+  | None => None
+  end.
+
+Definition srl_const (x : bits) (k : Z) : option bits :=
+  match wslice x (Some k) None with
+  | Some hi => Some (zext (length x) hi)
+  | None => None
+  end.
+
+Definition sra_const (x : bits) (k : Z) : option bits :=
+  match wslice x (Some k) None with
+  | Some hi => Some (hi ++ repeat (last hi false) (length x - length hi))
+  | None => None
+  end.
